@@ -2396,12 +2396,20 @@ impl FunctionCompiler<'_> {
                             }
                         }
                         ComptimeResult::Data(bytes) => {
-                            let data = self.create_global_data(
-                                &ctc.to_mangled_name(self.mod_dir, self.interner),
-                                false,
-                                bytes.clone(),
-                                ty.align() as u64,
-                            );
+                            let name = ctc.to_mangled_name(self.mod_dir, self.interner);
+
+                            // the same expression may be compiled more than once
+                            // (a `defer` is compiled for every way out of its block).
+                            // the block's data is defined the first time only
+                            let data = match self.module.get_name(&name) {
+                                Some(cranelift_module::FuncOrDataId::Data(data)) => data,
+                                _ => self.create_global_data(
+                                    &name,
+                                    false,
+                                    bytes.clone(),
+                                    ty.align() as u64,
+                                ),
+                            };
 
                             let local_id =
                                 self.module.declare_data_in_func(data, self.builder.func);
